@@ -9,7 +9,7 @@ RULE = ('reader layer (Coq model vs Reader): the four input forms x read schedul
         'must agree; byte-level mutants of encodings for the reader-error clause; both back-ends. non-trivial = non-empty; distinct by document')
 
 def schedules(rng, n_units):
-    out = [[1] * (n_units + 3)]
+    out = [[1] * (min(n_units, 6000) + 3)]          # after the listed sizes a stream serves what is asked for
     if n_units <= 64:
         out += [[k, n_units] for k in range(1, n_units)]
     else:
@@ -29,7 +29,7 @@ def run(ctx):
     for t in docs:
         r = rng.random()
         if r < 0.4: t = t[:rng.choice([8, 16, 30, 60])]
-        elif r < 0.5: t = (t + '\n') * rng.choice([20, 80])          # beyond one refill block
+        elif r < 0.5: t = (t + '\n') * max(1, min(rng.choice([20, 80]), 12000 // (len(t) + 1)))          # beyond one refill block, bounded total size
         if rng.random() < 0.1: t = t + rng.choice(['\x01', '\x7f', '￾', '\x00'])
         if rng.random() < 0.05: t = t.replace('\n', '\r\n')
         texts.append(t)
